@@ -86,7 +86,14 @@ static int cmd_kernel(const Args& a) {
         // cond = (D/diam)^2 * (diam^2/|n|)^2, D = largest vertex-to-query distance, |n| = twice the area.
         const R L = s.L; R Dq = std::max({(s.p - s.a).norm(), (s.p - s.b).norm(), (s.p - s.c).norm(), diam});
         const R cond = (Dq / diam) * (Dq / diam) * (diam * diam / area2) * (diam * diam / area2);
-        const R tolq = std::max(1e-9L * L, 256 * 2.220446e-16L * cond * diam), told = 1e-9L * std::max(d2s, L * L);
+        const R tolq = std::max(1e-9L * L, 256 * 2.220446e-16L * cond * diam);
+        // squared distance: the kernel may designate a point q' of the triangle within delta of the closest point q and forms it
+        // in absolute coordinates (rounding r = 16 eps M, M = largest input magnitude); |p-q'|^2 then differs from |p-q|^2 by at most
+        // 2 h (delta + r) + (delta + r)^2 with h = |p-q|; plus a relative 1e-12 for the final sum.  (An evaluation that obtains the
+        // distance as a difference of two large squares loses it for h << L and is outside this bound.)
+        const R Mabs = std::max({s.p.norm(), s.a.norm(), s.b.norm(), s.c.norm()});
+        const R dlt = 256 * 2.220446e-16L * cond * diam + 16 * 2.220446e-16L * Mabs;
+        const R told = std::min(1e-9L * std::max(d2s, L * L), 2 * std::sqrt(d2s) * dlt + dlt * dlt + 1e-12L * d2s);
         agg.bin("cond_decade:" + std::to_string((int)std::floor(std::log10((double)cond))));
         std::string rname = reg >= 0 ? REG[reg] : "none";
         c.nontrivial = true;
@@ -106,7 +113,8 @@ static int cmd_kernel(const Args& a) {
         if (!(dq <= tolq)) c.viol("closest_point:" + rname, "designated point is not the closest point of the triangle");
         // (3) squared distance
         R dd = std::fabs((R)k.d2 - d2s);
-        agg.maxi("d2_err_over_scale", (double)(dd / std::max(d2s, L * L)));
+        agg.maxi("d2_err_over_scale", (double)(dd / std::max(d2s, L * L))); agg.maxi("d2_err_over_tol", (double)(dd / told));
+        if (reg == 0 && d2s > 0 && std::sqrt(d2s) < 1e-5L * (s.p - s.a).norm()) agg.bin("interior_h_over_L_below_1e-5");
         if (!(dd <= told)) c.viol("d2:" + rname, "returned squared distance differs from |p-q|^2");
         // (4) joint rigid motion
         {
@@ -119,7 +127,10 @@ static int cmd_kernel(const Args& a) {
             V3 qs2; R d2s2 = orc::closest_on_triangle(p2, a2, b2, c2, qs2, nullptr);
             R L2 = L + tl;
             if (!((k2.q - qs2).norm() <= std::max(1e-9L * L2, 256 * 2.220446e-16L * cond * diam))) c.viol("moved_closest_point:" + rname, "closest point wrong after joint rigid motion");
-            if (!(std::fabs((R)k2.d2 - d2s2) <= 1e-9L * std::max(d2s2, L2 * L2))) c.viol("moved_d2:" + rname, "squared distance wrong after joint rigid motion");
+            const R Mabs2 = std::max({p2.norm(), a2.norm(), b2.norm(), c2.norm()}); const R dlt2 = 256 * 2.220446e-16L * cond * diam + 16 * 2.220446e-16L * Mabs2;
+            const R told2 = std::min(1e-9L * std::max(d2s2, L2 * L2), 2 * std::sqrt(d2s2) * dlt2 + dlt2 * dlt2 + 1e-12L * d2s2);
+            agg.maxi("moved_d2_err_over_tol", (double)(std::fabs((R)k2.d2 - d2s2) / told2));
+            if (!(std::fabs((R)k2.d2 - d2s2) <= told2)) c.viol("moved_d2:" + rname, "squared distance wrong after joint rigid motion");
             // and the two results must agree with each other up to the rounding of the motion itself
             R mag = std::max({p2.norm(), a2.norm(), s.p.norm(), s.a.norm(), (R)L});
             if (!(std::fabs((R)k2.d2 - (R)k.d2) <= 1e-9L * std::max(d2s, L * L) + 64 * 2.3e-16L * mag * (std::sqrt(d2s) + L))) c.viol("motion_dependence_d2:" + rname, "squared distance changes under joint rigid motion");
@@ -139,3 +150,36 @@ static int cmd_kernel(const Args& a) {
     return 0;
 }
 static Reg r_kernel("kernel", cmd_kernel);
+
+// The kernel is called concurrently by every thread of the contact phase (`#pragma omp parallel for` over the nodes).  kernel_par evaluates
+// batches of generated (point, triangle) pairs with a.threads threads at once and compares every result bit for bit with the value the
+// same call returned when it ran alone: any state the routine keeps between calls (static scratch, caches) shows up as a difference.
+#include <omp.h>
+static int cmd_kernel_par(const Args& a) {
+    Agg agg;
+    const long B = a.geti("batch", 20000);
+    for (long i = a.first; i < a.first + a.cases; i++) {
+        if (!a.mine(i)) continue;
+        Case c(i);
+        std::vector<Scene> sc; sc.reserve(B);
+        for (long k = 0; k < B; k++) { Rng g(a.seed, (uint64_t)(i * B + k), 0x55); sc.push_back(make_scene(g)); }
+        std::vector<std::pair<double, vec3>> ser(B), par(B);
+        for (long k = 0; k < B; k++) ser[k] = contact_model_abstract::compute_node_triangle_distance(tv(sc[k].p), tv(sc[k].a), tv(sc[k].b), tv(sc[k].c));
+        long mism = 0, first_bad = -1; int rounds = (int)a.geti("rounds", 6);
+        omp_set_num_threads(a.threads);
+        for (int r = 0; r < rounds; r++) {
+            #pragma omp parallel for schedule(static, 1)
+            for (long k = 0; k < B; k++) par[k] = contact_model_abstract::compute_node_triangle_distance(tv(sc[k].p), tv(sc[k].a), tv(sc[k].b), tv(sc[k].c));
+            for (long k = 0; k < B; k++) if (std::memcmp(&ser[k].first, &par[k].first, sizeof(double)) != 0 || std::memcmp(&ser[k].second, &par[k].second, sizeof(vec3)) != 0) { mism++; if (first_bad < 0) first_bad = k; }
+        }
+        if (mism) { c.viol("concurrent_kernel_result_differs", std::to_string(mism) + " kernel results obtained while other threads evaluate the kernel differ from the result of the same call made alone");
+            const Scene& s = sc[first_bad]; c.obs.raw("p", jv3(s.p.x, s.p.y, s.p.z)).raw("a", jv3(s.a.x, s.a.y, s.a.z)).raw("b", jv3(s.b.x, s.b.y, s.b.z)).raw("c", jv3(s.c.x, s.c.y, s.c.z)).d("d2_alone", ser[first_bad].first).d("d2_concurrent", par[first_bad].first); }
+        c.nontrivial = true; c.sig = hash_combine((uint64_t)i, hash_double(ser[0].first));
+        c.obs.i("threads", a.threads).i("calls_compared", B * rounds);
+        agg.bin("concurrent_calls_compared", B * rounds);
+        agg.add(c);
+    }
+    agg.flush(a.shard_i);
+    return 0;
+}
+static Reg r_kernel_par("kernel_par", cmd_kernel_par);
